@@ -457,6 +457,7 @@ pub fn grid(tier: Tier) -> Vec<Case> {
 }
 
 pub fn run(ctx: &mut Ctx) {
+    ctx.confirm_runs = 2;
     ctx.assume("fault locations are the probe points of hooks H4-H6 (worker loop heads, detached connection tasks, cleaning timer tasks, signal loops) plus hook-free set-up failures; 'at any moment' is sampled by the number of requests served before the fault");
     ctx.assume("`return` faults are only injected where returning ends the worker function (UDP loops, single-listener HTTP/WS accept loop, HTTP swarm request stream with one socket worker)");
     ctx.run_regress::<Case, _>("faults", prop);
